@@ -73,6 +73,22 @@ def _expr_names(p, e):
     return out
 
 
+def stored_lambda_tracers(p):
+    """Tracer keys that occur in the body of a lambda kept in a variable."""
+    out = set()
+
+    def walk(e):
+        x = p['exprs'][e - 1]
+        if x['kind'] in ('T', 'D', 'I'):
+            out.add(x['k'])
+        for a in x['args']:
+            walk(a)
+    for x in p['exprs']:
+        if x['kind'] == 'lamv':
+            walk(x['args'][0])
+    return out
+
+
 def for_target_assigned_in_body(p):
     for n, d in enumerate(p['nodes'], 1):
         if d['kind'] == 'for':
@@ -124,6 +140,13 @@ def classify(p, d, rec, claims):
                         'a variable that is a for-loop target holds the loop element (%s) where the value assigned to it inside the '
                         'loop body (%s) was expected: the analyses run on the lowered tree lose the assignment (for-header kills its '
                         'target, findings C06/C07)' % (y, x))
+    # the first effect that differs is a tracer inside the body of a stored lambda, called with different values of the
+    # variables it closes over: the lambda reads the function's variable, the assignment went to a generated body's local
+    if ev0 and ov0 and ev0[:2] == ov0[:2] and ev0[1] in stored_lambda_tracers(p):
+        return ('c01:diverge:read-by-lambda-called-after-its-definition',
+                'a stored lambda is called after an assignment to a variable it closes over inside a loop/branch body: the '
+                'converted function passes it %s where %s was expected (liveness assumes lambdas are used where they are written, '
+                'finding C07)' % (ov0, ev0))
     if rec.get('delx'):
         return ('c01:del-of-unbound-variable-does-not-raise',
                 'del of an unbound variable raises NameError in Python; the converted function continues (%s)' % (obs,))
